@@ -74,12 +74,12 @@ def read_rules(ctx, rep, impl):
     direct = len(none_edges) >= 1
     for n, (rbb, rt) in enumerate(RB):
         if direct:
-            reach = b.reach(0, avoid_edges=empty_edges | none_edges)
+            reach = b.reach_v(avoid_edges=empty_edges | none_edges)
             why = "neither found the buffer empty nor got `None` from decode"
         else:
             # decode's Option is matched after passing through a helper's return value: the statically visible part is that
             # every path to the transport read runs decode (or finds the buffer empty) first
-            reach = b.reach(0, avoid_blocks=dblocks, avoid_edges=empty_edges)
+            reach = b.reach_v(avoid_blocks=dblocks, avoid_edges=empty_edges)
             why = "neither found the buffer empty nor ran decode"
         rep.check("R5.1", "%s:decode-before-read:%d" % (impl, n), rbb not in reach,
                   "the transport can be read on a path that %s: buffered frames would be delayed or reordered" % why, b.loc(rt["line"]),
@@ -106,7 +106,7 @@ def read_rules(ctx, rep, impl):
         if not (set(oks) & b.reach(some_t)):
             continue
         n56 += 1
-        lost = b.reach(some_t, avoid_blocks=set(oks)) & rblocks
+        lost = b.reach_v(via=some_t, avoid_after=set(oks)) & rblocks
         rep.check("R5.6", "%s:decoded-packet-delivered:%d" % (impl, n56 - 1), not lost,
                   "after decode produced a packet the transport can be read again before that packet is returned (the packet is dropped)", b.loc(),
                   sample={"impl": impl, "switch_block": sbb})
